@@ -241,13 +241,15 @@ pub fn simple_auth(ctx: &mut Ctx, url: &str, rp: Option<&str>) -> AuthOp {
 }
 
 /// C14: a real registration and authentication; the JSON serialisations of the two emitted credentials
-pub fn emit_pair(ctx: &mut Ctx, i: usize) -> Vec<(String, String)> {
+pub fn emit_pair(ctx: &mut Ctx, i: usize) -> Vec<(String, String, String)> {
     let log = new_log();
     let uvst = Arc::new(Mutex::new(UvState::ok()));
     let store = RecStore::new(MemoryStore::new(), log.clone());
     let mut auth = Authenticator::new(Aaguid::from(crate::util::AAGUID), store, SharedUv { st: uvst, log: log.clone(), yields: false });
     auth.set_make_credentials_with_signature_counter(i % 2 == 0);
     if i % 3 != 0 { auth = auth.hmac_secret(passkey_authenticator::extensions::HmacSecretConfig::new_without_uv().enable_on_make_credential()); }
+    // the transports the authenticator reports end up in the emitted credential: none, one, several
+    match i % 5 { 0 => { auth = auth.transports(vec![]); } 1 => { auth = auth.transports(vec![webauthn::AuthenticatorTransport::Usb]); } 2 => { auth = auth.transports(vec![webauthn::AuthenticatorTransport::Ble, webauthn::AuthenticatorTransport::Nfc, webauthn::AuthenticatorTransport::Hybrid]); } _ => {} }
     let mut client = Client::new(auth);
     let url = Url::parse("https://www.example.com").unwrap();
     let prf = |ctx: &mut Ctx| AuthenticationExtensionsPrfInputs { eval: Some(AuthenticationExtensionsPrfValues { first: ctx.rng.bytes_in(1, 20).into(), second: if ctx.rng.bool() { Some(ctx.rng.bytes(4).into()) } else { None } }), eval_by_credential: None };
@@ -261,12 +263,12 @@ pub fn emit_pair(ctx: &mut Ctx, i: usize) -> Vec<(String, String)> {
     let mut out = vec![];
     let Ok(c) = block_on(client.register(&url, opts, DefaultClientData)) else { return out; };
     let id = c.raw_id.to_vec();
-    out.push(("created".to_string(), serde_json::to_string(&c).unwrap()));
+    out.push(("created".to_string(), serde_json::to_string(&c).unwrap(), format!("{:?}", c)));
     let opts = webauthn::CredentialRequestOptions { public_key: webauthn::PublicKeyCredentialRequestOptions {
         challenge: ctx.rng.bytes_in(0, 48).into(), timeout: None, rp_id: Some("example.com".into()),
         allow_credentials: Some(vec![PublicKeyCredentialDescriptor { ty: PublicKeyCredentialType::PublicKey, id: id.into(), transports: None }]),
         user_verification: Default::default(), hints: None, attestation: Default::default(), attestation_formats: None,
         extensions: if i % 3 == 1 { Some(AuthenticationExtensionsClientInputs { cred_props: None, prf: Some(prf(ctx)), prf_already_hashed: None }) } else { None } } };
-    if let Ok(a) = block_on(client.authenticate(&url, opts, DefaultClientData)) { out.push(("authenticated".to_string(), serde_json::to_string(&a).unwrap())); }
+    if let Ok(a) = block_on(client.authenticate(&url, opts, DefaultClientData)) { out.push(("authenticated".to_string(), serde_json::to_string(&a).unwrap(), format!("{:?}", a))); }
     out
 }
